@@ -10,21 +10,21 @@ open Rzmq
 
 /-- the engine is quiescent before the first read … -/
 theorem quiescent_init (spec : AbsSpec) (cfg : Cfg) : Quiescent spec cfg Eng.init := by
-  sorry
+  exact quiescent_init'
 
 /-- … and after every read (given the token bound of the mechanism): `run` stops because nothing is
 enabled, never because the fuel ran out. -/
 theorem quiescent_after (spec : AbsSpec) (hw : WellBehaved spec) (cfg : Cfg) (t : Nat) (s : Eng) (d : Bytes)
     (hprod : ∀ k h n, s.mech = .abs k h n → n ≤ 8) :
     Quiescent spec cfg (onNetworkBytes spec cfg t s d).1 := by
-  sorry
+  exact quiescent_onNetworkBytes hw t s d
 
 /-- Cut independence, same clock: feeding the reads one by one is *identical* (final state and the whole
 sequence of net and app actions) to feeding their concatenation in a single read. -/
 theorem engine_cut_independent (spec : AbsSpec) (hw : WellBehaved spec) (cfg : Cfg) (t : Nat) (s : Eng)
     (hq : Quiescent spec cfg s) (hprod : ∀ k h n, s.mech = .abs k h n → n ≤ 8) (chunks : List Bytes) :
     feedAll spec cfg s (chunks.map fun c => (t, c)) = onNetworkBytes spec cfg t s chunks.flatten := by
-  sorry
+  exact feedAll_same_clock hw t chunks s hq
 
 /-- The actions do not depend on *when* the reads happen either: with arbitrary time stamps the outputs are
 those of the single read, and the final states agree up to the activity clock. -/
@@ -33,13 +33,18 @@ theorem engine_outputs_clock_independent (spec : AbsSpec) (hw : WellBehaved spec
     (feedAll spec cfg s reads).2 = (onNetworkBytes spec cfg t s (reads.map (·.2)).flatten).2
     ∧ (feedAll spec cfg s reads).1.eraseClock
         = (onNetworkBytes spec cfg t s (reads.map (·.2)).flatten).1.eraseClock := by
-  sorry
+  have h := feedAll_eraseP hw t hq reads
+  simp only [eraseP, Prod.mk.injEq] at h
+  exact ⟨h.2, h.1⟩
 
 /-- In particular the delivered messages (and handshake completion / errors) are a function of the byte
 stream alone — data arriving in the same read as the last handshake bytes is delivered. -/
 theorem deliveries_depend_on_bytes_only (spec : AbsSpec) (hw : WellBehaved spec) (cfg : Cfg)
     (r1 r2 : List (Nat × Bytes)) (h : (r1.map (·.2)).flatten = (r2.map (·.2)).flatten) :
     (feedAll spec cfg Eng.init r1).2.app = (feedAll spec cfg Eng.init r2).2.app := by
-  sorry
+  have h1 := feedAll_eraseP (cfg := cfg) hw 0 quiescent_init' r1
+  have h2 := feedAll_eraseP (cfg := cfg) hw 0 quiescent_init' r2
+  simp only [eraseP, Prod.mk.injEq] at h1 h2
+  rw [h1.2, h2.2, h]
 
 end Rzmq.C04
